@@ -163,12 +163,11 @@ func vFilterFor(name string, idx int) (FilterSpec, vExpect) {
 		k := ks[vChoose(tag+"arch", len(ks))]
 		rhs, e.value = k, vArchCodes[k]
 	case name == "perm":
-		bits := vChoose(tag+"perm", 16)
-		for i, c := range []string{"r", "w", "x", "a"} {
-			if bits&(1<<i) != 0 {
-				rhs += c
-				e.value |= vUAPIPerms[c]
-			}
+		// 0..3 letters in any order, repeats allowed ("rr", "war"): the value is the union of their bits
+		for i, n := 0, vChoose(tag+"permlen", 4); i < n; i++ {
+			c := []string{"r", "w", "x", "a"}[vChoose(tag+"permletter", 4)]
+			rhs += c
+			e.value |= vUAPIPerms[c]
 		}
 	case name == "filetype":
 		ks := vSortedKeys(vFiletypes)
@@ -360,13 +359,12 @@ func VH_EncodeWatch() {
 		vAssume(len(p) > len("/zzverif/"))
 	}
 	r := &FileWatchRule{Type: FileWatchRuleType, Path: p}
-	bits := vChoose("perm", 16)
 	var permv uint32
-	for i, a := range []AccessType{ReadAccessType, WriteAccessType, ExecuteAccessType, AttributeChangeAccessType} {
-		if bits&(1<<i) != 0 {
-			r.Permissions = append(r.Permissions, a)
-			permv |= vUAPIPerms[[]string{"r", "w", "x", "a"}[i]]
-		}
+	bits := vChoose("permlen", 4) // 0..3 permissions in any order, repeats allowed
+	for i := 0; i < bits; i++ {
+		j := vChoose("permletter", 4)
+		r.Permissions = append(r.Permissions, []AccessType{ReadAccessType, WriteAccessType, ExecuteAccessType, AttributeChangeAccessType}[j])
+		permv |= vUAPIPerms[[]string{"r", "w", "x", "a"}[j]]
 	}
 	if bits == 0 {
 		permv = vUAPIPerms["r"] | vUAPIPerms["w"] | vUAPIPerms["x"] | vUAPIPerms["a"] // no -p means all four
